@@ -129,7 +129,10 @@ class Gen:
                 self.lines[-1] = self.lines[-1].split('*=')[0] + '= (' + v + ' * ' + r.choice(['2', '3', '-1']) + ') % 1000003'
         elif c < 0.63:
             self.used.add("slice")
-            self.emit(ind, r.choice([f"l[{self.atom()}:{self.atom()}] = [{v}]", f"{v} = len(l[1:])", f"del l[{self.atom()}:]", f"l[{self.atom()}] = {v}", f"del l[{self.atom()}]", f"o.attr = {v}"]))
+            opts = [f"{v} = len(l[1:])", f"l[{self.atom()}] = {v}", f"o.attr = {v}"]
+            if self.loop_depth == 0:   # never grow a list that may be iterated over
+                opts += [f"l[{self.atom()}:{self.atom()}] = [{v}]", f"del l[{self.atom()}:]", f"del l[{self.atom()}]"]
+            self.emit(ind, r.choice(opts))
         elif c < 0.72:
             self.emit(ind, f"print({r.choice(INT_VARS)}, {self.atom()})")
         elif c < 0.80:
